@@ -67,6 +67,9 @@ def anyOverflow (lm : Lims) : Nat → List (List UInt8 × Bool) → List (List U
 def pred (opts : List Opt) (cmd : List (List UInt8)) (input : List UInt8) (sys : Nat)
     (status : Nat) (argvs : List (List (List UInt8))) : Bool :=
   let nz := normalize opts
+  -- a word of xargs' own command line that is not valid UTF-8 may be refused (status 1, nothing run):
+  -- the implementation holds its arguments as strings; passing it on unchanged is accepted as well
+  if cmd.any (fun w => !FuModel.Utf8.validUtf8 w) && status == 1 && argvs.isEmpty then true else
   if nz.replace.isSome then true else
   if opts.any (fun | .n 0 => true | .l 0 => true | .s 0 => true | _ => false) then status == 1 && argvs.isEmpty else
   let sOpt := lastVal opts (fun | .s v => some v | _ => none)
